@@ -62,6 +62,7 @@ pub fn lookup(name: &str) -> Option<(&'static str, ScenFn)> {
         "amp" => (AMP_RULE, amp as ScenFn),
         "close" => (CLOSE_RULE, close as ScenFn),
         "determ" => (DETERM_RULE, determ as ScenFn),
+        "determcc" => (crate::scen_determ::DETERMCC_RULE, crate::scen_determ::determcc as ScenFn),
         "migrate" => (MIGRATE_RULE, migrate as ScenFn),
         "zrtt" => (ZRTT_RULE, zrtt as ScenFn),
         "mtu" => (MTU_RULE, mtu as ScenFn),
@@ -741,7 +742,7 @@ pub fn close(seed: u64, out: &mut Outcome) {
     out.take_trace(seed, &mut sim);
 }
 
-pub const DETERM_RULE: &str = "one execution = the transfer scenario of seed s run four times in one process: (a) reference with a driver that makes no spurious calls, (b) identical replay, (c) time base shifted by 1000 s, (d) spurious handle_timeout / poll_timeout calls inserted at 30% of the opportunities; the full observable traces (every Transmit: instant offset, size, segment size, destination; every application event; every endpoint event; every serviced timeout and the next deadline it leaves) must be identical (a)=(b)=(c)=(d). Ed25519 certificates and seeded CID generators / rng_seed make datagram sizes independent of TLS randomness. Also: servicing timeouts at one instant settles within 2*16+9 rounds; no output after drained. Non-trivial = reference trace has > 50 records and >= 1 fault";
+pub const DETERM_RULE: &str = "one execution = the transfer scenario of seed s run four times in one process: (a) reference with a driver that makes no spurious calls, (b) identical replay, (c) time base shifted by 1000 s, (d) spurious handle_timeout / poll_timeout calls, and repeated poll_transmit / poll calls after one that returned None, inserted at 30% of the opportunities; the full observable traces (every Transmit: instant offset, size, segment size, destination; every application event; every endpoint event; every serviced timeout and the next deadline it leaves) must be identical (a)=(b)=(c)=(d). Ed25519 certificates and seeded CID generators / rng_seed make datagram sizes independent of TLS randomness. Also: servicing timeouts at one instant settles within 2*16+9 rounds; no output after drained. Non-trivial = reference trace has > 50 records and >= 1 fault";
 
 fn trace_key(t: &[Rec]) -> Vec<String> {
     t.iter().map(|r| format!("{r:?}")).collect()
